@@ -22,7 +22,7 @@ EXPLANATION = (
 ASSUMPTIONS = ["completion CPOs are noexcept (receiver contract)", "pika::detail::try_catch_exception_ptr(f, g) runs f and, if f throws, g with the exception",
                "pika::detail::visit calls exactly one operator() of the visitor"]
 THOROUGH_CONFIGS = [["-UNDEBUG", "-DPIKA_DEBUG"]]
-FLOORS = {"C03.R1": 45, "C03.R2": 5, "C03.R3": 6, "C03.R4": 18, "C03.R5": 6, "C03.R6": 6, "C03.R7": 9, "C03.R8": 1}
+FLOORS = {"C03.R1": 45, "C03.R2": 5, "C03.R3": 6, "C03.R4": 18, "C03.R5": 6, "C03.R6": 6, "C03.R7": 9, "C03.R8": 1, "C03.R9": 6, "C03.R10": 6}
 
 MEMBERS = ("set_value", "set_error", "set_stopped")
 CHANNEL_OK = {"set_value": {"value", "error", "connect", "protocol"}, "set_error": {"error", "protocol", "connect"}, "set_stopped": {"stopped", "protocol"}}
@@ -184,7 +184,10 @@ def run(rep, tier):
                 rep.ok("C03.R2", fn, "user callable invoked at %s inside an exception guard ending in set_error" % loc_of(ev))
             else:
                 rep.bad("C03.R2", fn, loc_of(ev), "unguarded-callable", "a stored user callable is invoked outside an exception guard: an exception escapes a noexcept completion member (std::terminate) instead of arriving as set_error")
-    if n2 < 5:
+    if n2 < 5 and n2 >= 3:
+        rep.bad("C03.R2", "pika::*_detail", "", "callable-not-invoked", "only %d of the 5 adaptors that store a user callable (then, let_value, let_error, bulk, unpack/transfer) still invoke it: "
+                "a composition no longer denotes its callable applied to the predecessor's result" % n2)
+    elif n2 < 3:
         raise AnalysisBroken("C03.R2 found only %d user-callable invocations" % n2)
 
     # ---- R3 when_all
@@ -215,6 +218,23 @@ def run(rep, tier):
                 rep.ok("C03.R3", fn, "finish(): completes (once) only on the edge --predecessors_remaining == 0; channels %s" % sorted(s.channels), sites=len(comps))
             else:
                 rep.bad("C03.R3", fn, fn.loc, "finish", "finish() must complete exactly once and only when the last predecessor finished (counts %s, guarded by the last decrement: %s)" % (sorted(s.normal), last))
+        for fn in fin:
+            ffd = FactFlow(fn)
+            for b, i, ev in fn.all_events():
+                if ev.get("k") != "call":
+                    continue
+                fb = ffd.before.get((b, i)) or frozenset()
+                fl = [t for a, t in fb if a.endswith("set_stopped_error_called") or "set_stopped_error_called.load" in a]
+                if callee_short(ev) == "set_value_helper" or callee_of(ev) == NS + "set_value":
+                    if True in fl:
+                        rep.bad("C03.R3", fn, loc_of(ev), "finish-dispatch:value", "finish() completes with the values on the path where an error / stopped signal was recorded")
+                    elif False in fl:
+                        rep.ok("C03.R3", fn, "finish(): values only when no error / stopped signal was recorded")
+                elif callee_of(ev) == NS + "set_stopped":
+                    if False in fl and True not in fl:
+                        rep.bad("C03.R3", fn, loc_of(ev), "finish-dispatch:stopped", "finish() completes with set_stopped on the path where no error / stopped signal was recorded")
+                    elif True in fl:
+                        rep.ok("C03.R3", fn, "finish(): set_stopped only when a signal was recorded")
         recv = [f for f in members if f.qname.startswith(ns + "::")]
         for fn in recv:
             short = fn.qname.rsplit("::", 1)[-1]
@@ -232,6 +252,28 @@ def run(rep, tier):
                 rep.ok("C03.R3", fn, "%s: error slot written only after winning set_stopped_error_called.exchange(true)" % short, sites=len(wr))
             else:
                 rep.bad("C03.R3", fn, fn.loc, "error-race:" + short, "op_state.error is written without first winning set_stopped_error_called.exchange(true): two failing predecessors race on the error slot")
+            # the flag 'an error / stopped signal was seen' decides in finish() which channel completes: set_stopped and set_error raise it before finish(),
+            # set_value stores its values exactly when it is not raised
+            fins = [(b, i, ev) for b, i, ev in fn.all_events() if ev.get("k") == "call" and callee_short(ev) == "finish"]
+            flag_true = lambda e: (e.get("k") == "write" and P(e["lhs"]).endswith("set_stopped_error_called") and T(strip(e["rhs"])) == "true") or \
+                (e.get("k") == "call" and callee_short(e) in ("exchange", "store") and P(e.get("recv") or {}).endswith("set_stopped_error_called") and e.get("args") and T(strip(e["args"][0])) == "true") or \
+                (e.get("k") == "call" and e.get("op") == "=" and P(e.get("recv") or {}).endswith("set_stopped_error_called") and e.get("args") and T(strip(e["args"][0])) == "true")
+            if short in ("set_stopped", "set_error") and fins:
+                if all(precedes_on_all_paths(fn, flag_true, (b, i)) for b, i, ev in fins):
+                    rep.ok("C03.R3", fn, "%s raises set_stopped_error_called before finish()" % short)
+                else:
+                    rep.bad("C03.R3", fn, loc_of(fins[0][2]), "flag-not-raised:" + short, "%s reaches finish() without having raised set_stopped_error_called: finish() then takes the "
+                            "value branch and reads value slots that were never filled instead of completing with %s" % (short, "the error" if short == "set_error" else "set_stopped"))
+            if short == "set_value":
+                sth = [(b, i, ev) for b, i, ev in fn.all_events() if ev.get("k") == "call" and callee_short(ev) == "set_value_helper"]
+                for b, i, ev in sth:
+                    fb = ff.before.get((b, i)) or frozenset()
+                    fl = [t for a, t in fb if a.endswith("set_stopped_error_called") or "set_stopped_error_called.load" in a]
+                    if True in fl:
+                        rep.bad("C03.R3", fn, loc_of(ev), "values-stored-under-flag", "set_value stores its values only when an error / stopped signal was already seen and skips them otherwise: "
+                                "finish() forwards value slots that were never filled")
+                    else:
+                        rep.ok("C03.R3", fn, "set_value stores its values unless an error / stopped signal was already seen")
 
     # ---- R4 shared-state adaptors
     for ns, recvname in (("pika::split_detail", "split_receiver"), ("pika::split_tuple_detail", "split_tuple_receiver"), ("pika::ensure_started_detail", "ensure_started_receiver")):
@@ -333,6 +375,107 @@ def run(rep, tier):
             else:
                 rep.bad("C03.R4", fn, fn.loc, "start-once", "the shared predecessor operation can be started more than once")
 
+    # ---- R9: the visitors that deliver a stored / forwarded result complete once for every alternative
+    rep.rule("C03.R9", "K3: the visitor classes through which adaptors deliver a stored or forwarded result (one operator() per alternative: stopped, error, values) "
+             "complete the receiver they hold exactly once on every path of every alternative (the monostate alternative is unreachable by construction); the user "
+             "callable of then is invoked on every path of its set_value before the completion - an alternative that completes nothing leaves the consumer waiting for ever")
+    n9 = 0
+    # a visitor class delivers if one of its alternatives completes a receiver: then all of them (but monostate) have to
+    delivering = set()
+    for f_ in F.fns:
+        if f_.parent == -1 and f_.kind == "method" and f_.qname.endswith("::operator()") and f_.record and re.search(r"visitor", f_.record) and \
+                any((e.get("k") == "call" and callee_of(e) in (NS + "set_value", NS + "set_error", NS + "set_stopped")) or
+                    (e.get("k") == "read" and "this->receiver" in T(e.get("e") or {})) for _, _, e in f_.all_events()):
+            delivering.add(f_.record)
+    for fn0 in F.fns:
+        if fn0.parent != -1 or not fn0.pattern or fn0.kind != "method" or not fn0.qname.endswith("::operator()") or not fn0.record:
+            continue
+        if not re.search(r"visitor", fn0.record) or not re.match(r"^pika::(\w+_detail|when_all_impl)::", fn0.qname):
+            continue
+        ptypes = " ".join(str(p_.get("type", "")) for p_ in fn0.params)
+        if "monostate" in ptypes:
+            continue
+        for fn in usable(F, fn0)[:2]:
+            evs = list(fn.all_events())
+            touches_receiver = any(e.get("k") == "call" and callee_of(e) in (NS + "set_value", NS + "set_error", NS + "set_stopped") for _, _, e in evs)
+            holds_receiver = any("receiver" in T(e.get("e") or {}) for _, _, e in evs if e.get("k") == "read")
+            rec_fields = [r for r in F.records.values() if r.get("qname") == fn0.record]
+            has_field = any(x.get("name") == "receiver" for r in rec_fields for x in r.get("fields", []))
+            if not (touches_receiver or holds_receiver or has_field or fn0.record in delivering):
+                continue
+            s = C.summary(fn)
+            n9 += 1
+            if s.normal == frozenset([1]) or (s.normal == frozenset() and any(blk.term.get("noreturn") for blk in fn.blocks.values())):
+                rep.ok("C03.R9", fn, "the alternative (%s) completes the held receiver exactly once on every path" % ptypes[:60])
+            elif touches_receiver or has_field or fn0.record in delivering:
+                rep.bad("C03.R9", fn, fn.loc, "visitor-alternative:" + fn0.record.rsplit("::", 1)[-1], "%s (alternative %s) completes the receiver it delivers to %s times depending on the path "
+                        "(expected exactly once): a consumer of that alternative is never signalled / signalled twice" % (fn.qname, ptypes[:80], sorted(s.normal)))
+    if n9 < 6:
+        raise AnalysisBroken("C03.R9: only %d delivering visitor alternatives found" % n9)
+    # then: f is invoked on every path of set_value before the completion
+    for fn0 in members:
+        if not fn0.qname.startswith("pika::then_detail::") or not fn0.qname.endswith("::set_value"):
+            continue
+        for fn in usable(F, fn0)[:2]:
+            lams = [fn] + list(fn.lambdas())
+            inv = [e for f_ in lams for _, _, e in f_.all_events() if e.get("k") == "call" and re.search(r"(^|[^\w])(invoke_impl\{)?(std::move\()?r\.f\b|\br\.f\(", T(e))]
+            # both branches (void / non-void result) have to invoke: count distinct invocation sites against the number of value completions
+            comps = [e for f_ in lams for _, _, e in f_.all_events() if e.get("k") == "call" and callee_of(e) == NS + "set_value"]
+            if inv and len(inv) >= len(comps):
+                rep.ok("C03.R9", fn, "then: every value completion is preceded by an invocation of f (%d invocations, %d completions)" % (len(inv), len(comps)))
+            else:
+                rep.bad("C03.R9", fn, fn.loc, "then-f-not-invoked", "then's set_value completes downstream with set_value on a branch that does not invoke the user callable "
+                        "(%d invocations of f for %d value completions): the composition no longer denotes f applied to the values" % (len(inv), len(comps)))
+
+    # ---- R10: direct delivery only after completion; every queued continuation is run; schedule_from parks, connects, starts
+    rep.rule("C03.R10", "K4/K2/K7: split / split_tuple / ensure_started deliver the stored result to a consumer directly (visit of the stored variant) only on paths where "
+             "predecessor_done was seen true - otherwise the consumer reads an empty variant; set_predecessor_done runs every queued continuation (evaluated with a non-empty "
+             "queue); schedule_from parks the predecessor's values, connects the scheduler's sender and starts that operation on every path of its value completion")
+    from engine.kinds import eval_walk as _ew10
+    n10 = 0
+    for ns in ("pika::split_detail", "pika::split_tuple_detail", "pika::ensure_started_detail"):
+        for f0 in [f for f in F.find("^" + re.escape(ns) + r"::.*shared_state::add_continuation$") if f.pattern and f.parent == -1]:
+            for fn in usable(F, f0)[:1]:
+                ff10 = FactFlow(fn)
+                vis = [(b, i, e) for b, i, e in fn.all_events() if e.get("k") == "call" and callee_short(e) == "visit"]
+                for b, i, e in vis:
+                    n10 += 1
+                    fb = ff10.before.get((b, i)) or frozenset()
+                    done = [t for a, t in fb if a.endswith("predecessor_done") or "predecessor_done.load" in a]
+                    if True in done and False not in done:
+                        rep.ok("C03.R10", fn, "the stored result is delivered directly only after predecessor_done was seen true")
+                    else:
+                        rep.bad("C03.R10", fn, loc_of(e), "deliver-before-done", "%s::add_continuation visits the stored variant on a path where predecessor_done was not seen true: "
+                                "the consumer is completed from an empty (monostate) variant before the predecessor has completed" % ns)
+        for f0 in [f for f in F.find("^" + re.escape(ns) + r"::.*shared_state::set_predecessor_done$") if f.pattern and f.parent == -1]:
+            for fn in usable(F, f0)[:1]:
+                calls = [e for _, _, e in fn.all_events() if e.get("k") == "call" and e.get("op") == "()" and derives_from(fn, e, lambda t: "this->continuation" in t)]
+                if not calls:
+                    continue
+                ffq = FactFlow(fn)
+                n10 += 1
+                pos_calls = [(b, i) for b, i, e in fn.all_events() if e is calls[0]]
+                fbq = ffq.before.get(pos_calls[0]) or frozenset() if pos_calls else frozenset()
+                if any(t and "continuation" in a and ".empty()" in a for a, t in fbq):
+                    rep.bad("C03.R10", fn, fn.loc, "continuations-skipped", "%s::set_predecessor_done runs the queued continuations only on the path where the queue is empty: consumers "
+                            "that were queued before the predecessor completed are never signalled" % ns)
+                else:
+                    rep.ok("C03.R10", fn, "the queued continuations are run whenever the queue is not empty")
+    for f0 in [f for f in F.find(r"^pika::schedule_from_detail::operation_state::set_value_predecessor_sender$") if f.pattern and f.parent == -1]:
+        for fn in usable(F, f0)[:1]:
+            park = lambda e: e.get("k") == "call" and callee_short(e) == "emplace" and re.search(r"this->\w+$", P(e.get("recv") or {})) and "op_state" not in P(e.get("recv") or {})
+            conn = lambda e: e.get("k") == "call" and callee_short(e) in ("emplace", "emplace_f") and "op_state" in P(e.get("recv") or {})
+            st = [(b, i, e) for b, i, e in fn.all_events() if e.get("k") == "call" and callee_of(e) == NS + "start"]
+            n10 += 1
+            cf = CountFlow(fn, lambda e, pos: 1 if (e.get("k") == "call" and callee_of(e) == NS + "start") else 0)
+            if st and cf.exits == frozenset([1]) and all(precedes_on_all_paths(fn, park, (b, i)) and precedes_on_all_paths(fn, conn, (b, i)) for b, i, e in st):
+                rep.ok("C03.R10", fn, "schedule_from: values parked -> scheduler operation connected -> started, exactly once on every path")
+            else:
+                rep.bad("C03.R10", fn, fn.loc, "schedule-from-hand-over", "schedule_from's value completion does not park the values, connect the scheduler's sender and start that operation "
+                        "exactly once on every path (starts on exit paths: %s): the operation never completes / forwards values that were never stored" % sorted(cf.exits))
+    if n10 < 6:
+        raise AnalysisBroken("C03.R10 examined only %d instances" % n10)
+
     # ---- R8: a stopped signal that has arrived is forwarded whatever the predecessor's static traits say
     rep.rule("C03.R8", "K6: pika's adaptors all declare sends_done = false yet forward set_stopped, so the trait says nothing about whether a stopped signal can arrive. "
              "Code that has *received* stopped (the stored stopped_type alternative of split_tuple, the stopped branch of when_all_vector::finish) completes its receiver "
@@ -378,6 +521,16 @@ def run(rep, tier):
             rep.ok("C03.R5", fn, "release() is the last access to the operation state")
         else:
             rep.bad("C03.R5", fn, fn.loc, "use-after-release", "the operation state is used after release() (it may already be deleted)")
+    # start_detached: the holder it allocates starts the operation it holds (otherwise nothing ever runs and the holder is never released)
+    hs = [f for f in F.fns if f.parent == -1 and f.kind == "ctor" and f.qname.startswith("pika::start_detached_detail::operation_state_holder::")]
+    if not hs:
+        raise AnalysisBroken("start_detached: operation_state_holder constructor not found")
+    for fn in hs[:2]:
+        if any(e.get("k") == "call" and callee_of(e) == NS + "start" for _, _, e in fn.all_events()):
+            rep.ok("C03.R5", fn, "the detached operation is started by the holder that owns it")
+        else:
+            rep.bad("C03.R5", fn, fn.loc, "detached-not-started", "start_detached's operation_state_holder no longer starts the operation it connects: the work never runs and the holder "
+                    "(released only by a completion) is never freed")
     for ns, field in (("pika::drop_op_state_detail", "op_state"), ("pika::schedule_from_detail", "scheduler_op_state")):
         fs = [f for f in F.fns if f.pattern and f.parent == -1 and f.qname.startswith(ns + "::") and
               (f.qname.rsplit("::", 1)[-1] in MEMBERS or f.qname.endswith("_scheduler_sender"))]
